@@ -96,11 +96,15 @@ Bc(u, m) == IF Len(u) = m THEN u ELSE [i \in 1..m |-> u[1]]  \* scalar against v
 (* Leaves.  Polynomials are sequences of components, a component is a      *)
 (* sequence of monomials <<coefficient, <<exponents>>>>.                   *)
 
-PolyNames == {"s", "v", "u", "w"}
+PolyNames == {"s", "v", "u", "w", "p"}
 PolyOf(nm) ==
   CASE nm = "w" -> << << <<1, <<1, 0, 1>>>>, <<1, <<0, 1, 0>>>> >>,                     \* x0 x2 + x1   (3 inputs)
                       << <<1, <<0, 2, 0>>>>, <<-1, <<0, 0, 1>>>> >> >>                  \* x1^2 - x2
     [] nm = "s" -> << << <<1, <<2, 0>>>>, <<1, <<0, 1>>>> >> >>                        \* x0^2 + x1
+    \* the identity map x |-> x: a user callable may legitimately RETURN ITS ARGUMENT (or a view of it);
+    \* the binding builds this leaf with such a callable (a function is a value: what it returned must
+    \* not change when it, or a function built over it, is evaluated again - clause ResultsAreValues)
+    [] nm = "p" -> << << <<1, <<1, 0>>>> >>, << <<1, <<0, 1>>>> >> >>
     [] nm = "v" -> << << <<1, <<1, 1>>>> >>,                                            \* x0 x1
                       << <<1, <<1, 0>>>>, <<-1, <<0, 1>>>> >> >>                        \* x0 - x1
     [] nm = "u" -> << << <<1, <<3, 0>>>>, <<-1, <<0, 1>>>> >>,                          \* x0^3 - x1
@@ -460,7 +464,7 @@ Ext(S) == UNION {UnaryExt(a) : a \in S}
 
 OpNames == <<"w", "Lc", "M", "Mc", "s", "v", "u", "Ls", "L", "Lu", "Q", "add", "sub", "mul", "div", "addc", "subc", "mulc",
              "divc", "offc", "adda", "suba", "mula", "diva", "offa", "neg", "restr", "rrestr", "lrestr", "lincomp",
-             "concat", "normalize", "taylor1", "taylor2", "cvx", "aggmax", "aggsq", "aggpos">>
+             "concat", "normalize", "taylor1", "taylor2", "cvx", "aggmax", "aggsq", "aggpos", "p">>
 OpIdx(o) == CHOOSE i \in 1..Len(OpNames) : OpNames[i] = o
 RECURSIVE SumInts(_)
 SumInts(s) == IF Len(s) = 0 THEN 0 ELSE s[1] + SumInts(Tail(s))
@@ -558,7 +562,7 @@ Deg(t) ==
   LET op == t[1]  a == t[2] IN
   CASE op \in {"s", "v", "Q", "w"} -> 2
     [] op = "u" -> 3
-    [] op \in LinNames -> 1
+    [] op \in LinNames \cup {"p"} -> 1
     [] op \in {"add", "sub", "concat"} -> Max2(Deg(a[1]), Deg(a[2]))
     [] op = "mul" -> Deg(a[1]) + Deg(a[2])
     [] op \in {"div", "cvx", "aggmax", "aggpos"} -> 99
